@@ -39,6 +39,20 @@ def model_tokens(line):
     return toks, len(right.split())
 
 
+def perfect_matching(items, sets):
+    """every item is paired with a set of its own that contains it (augmenting paths; a handful of diagnostics)"""
+    owner = {}
+    def place(i, seen):
+        for k, w in enumerate(sets):
+            if items[i] in w and k not in seen:
+                seen.add(k)
+                if k not in owner or place(owner[k], seen):
+                    owner[k] = i
+                    return True
+        return False
+    return all(place(i, set()) for i in range(len(items)))
+
+
 def run_file(action, data):
     with cli.Workdir() as w:
         p = w.write('src/file.st', data)
@@ -181,6 +195,8 @@ def run(ctx):
         ctx.count('editor:documents')
         cl = run_file('check', txt.encode('utf-8'))
         if not se['diags']: continue
+        # compared as sets of (code, position) on both sides: one rule can report the same position more than once (a name
+        # declared three times gives two diagnostics on the structure), in the editor as on the command line
         lsp = sorted({(d[0], d[1], d[2]) for d in se['diags'][-1]})
         lines = txt.split('\n')
         def variants(code, line, col):
@@ -193,8 +209,8 @@ def run(ctx):
                 if col - 1 in (len(pre.encode('utf-8')), len(pre), len(pre.encode('utf-16-le')) // 2):
                     out |= {(code, line - 1, len(pre)), (code, line - 1, len(pre.encode('utf-16-le')) // 2)}
             return out
-        want = [variants(d[0], d[2], d[3]) for d in cl['diags'] if d[1] is not None]
-        ok = len(want) == len(lsp) and all(any(x in w for w in want) for x in lsp)
+        want = [variants(*k) for k in sorted({(d[0], d[2], d[3]) for d in cl['diags'] if d[1] is not None})]
+        ok = len(want) == len(lsp) and perfect_matching(lsp, want)
         if not ok and want:
             ctx.violations.append({'stream': 'editor', 'case': {'stream': 'editor', 'what': [pi, kind], 'action': 'lsp', 'text': txt[:1500]},
                                    'impl': str(lsp)[:300], 'model': str([(d[0], d[2], d[3]) for d in cl['diags']])[:300],
